@@ -497,11 +497,17 @@ def compare_model_run(ctx, case, impl, run, which):
         return
     cap = run["capture"]
     fields = [f.strip() for f in out.split("|")]
-    margin = core.parse_rat(fields[-1])
+    mtoks = fields[-1].split()
+    margin = core.parse_rat(mtoks[0])                                   # selection phase (stamps, motion filter)
+    pmargin = core.parse_rat(mtoks[1]) if len(mtoks) > 1 else None      # pair selection (distances / angles)
     grid = case.get("stream") == "grid"
     mag = max([abs(x) for x in cap["in_ref"][0] + cap["in_est"][0]] + [1.0])
     slack = Fraction(32, 2 ** 52) * frac(mag) if case["fmt"] != "kitti" else Fraction(1, 10 ** 12)
-    if not grid and margin < slack:
+    # the pair selection runs on the processed estimate/reference: after an alignment its positions are no longer on
+    # the exact grid, so its margin is applied to the grid stream too
+    aligned = any(case["opts"].get(k) for k in ("align", "correct_scale", "align_origin", "project_to_plane"))
+    pslack = Fraction(1, 10 ** 9)
+    if (not grid and margin < slack) or (pmargin is not None and pmargin < pslack and (not grid or aligned)):
         ctx.skipped += 1
         ctx.count("branch", "model-run-borderline-skipped")
         return
